@@ -331,7 +331,10 @@ def _run_recv(case, R, conn):
              "escaped": [repr(e) for e in ep.escaped][:3],
              "delivered": [(b, len(p)) for b, p in conn.deliveries()][:8]}
         d.update(extra or {})
-        R.violation("C16/%s/%s/%s" % (fam, role, key), what, d, case)
+        d["role"], d["family"] = role, fam
+        # onMessageFrameBegin() is shared by both roles and by compressed/uncompressed messages: role and family are
+        # in the detail; the key keeps limit kind, header length form (separate parser branches) and the clause
+        R.violation("C16/recv/%s" % key, what, d, case)
 
     # ---- 1. everything before the offending frame
     upto = len(frames) if off is None else off
